@@ -24,7 +24,8 @@ CHECK_FN = "check_c20"
 SHARD = 60
 RULE = ("corpus/C20 witnesses first (year-999 round trip, fixed in 87c5f78); 8 queries issued by a second interpreter with "
         "another PYTHONHASHSEED; families: single call on a fresh client / the same client reused for 2-4 consecutive calls "
-        "(url and token changed in between) / 2-3 live generators advanced alternately / lazy consumption of k sessions then close() / "
+        "(url and token changed in between) / 2-3 live generators of distinct clients advanced alternately / 2-3 generators of ONE client (different sites, multi-page) "
+        "zipped or randomly interleaved, mixed with a generator of another client / lazy consumption of k sessions then close() / "
         "yielded documents scribbled over by the caller / count_sessions and get_sessions_by_time(count=True) / parse_dates called "
         "directly / the same timestamp string parsed into 2-3 zones consecutively / truthy-int flags / base URL without slash; fake transport serving 0..6 pages (empty pages, missing / surplus next links, responses running out) of "
         "documents with RFC-1123 fields and time series in 9 zones around DST transitions, near years 1 / 9999, "
@@ -153,16 +154,18 @@ class Transport:
     def __init__(self):
         self.routes = []
 
-    def route(self, base, payloads, total=None):
-        r = dict(base=base, payloads=payloads, calls=[], total=total)
-        self.routes = [x for x in self.routes if x["base"] != base] + [r]
+    def route(self, base, payloads, total=None, marker=None):
+        """marker: a substring (e.g. 'sessions/jpl') that tells apart several result sets served under ONE base URL
+        (several generators of the same client)"""
+        r = dict(base=base, payloads=payloads, calls=[], total=total, marker=marker)
+        self.routes = [x for x in self.routes if (x["base"], x["marker"]) != (base, marker)] + [r]
         return r
 
     def _find(self, url):
-        cands = [r for r in self.routes if url.startswith(r["base"])]
+        cands = [r for r in self.routes if url.startswith(r["base"]) and (r["marker"] is None or r["marker"] in url[len(r["base"]):])]
         if not cands:
             raise ConnectionError("fake transport: no route for %r" % url)
-        return max(cands, key=lambda r: len(r["base"]))
+        return max(cands, key=lambda r: (len(r["base"]), r["marker"] is not None))
 
     def get(self, url, auth=None, **kw):
         r = self._find(url)
@@ -457,16 +460,26 @@ def pages_coq(payloads, opq):
     return coq_list(out)
 
 
-def rand_spec(rng, by_time, base="?", token=None):
-    """one get_sessions / get_sessions_by_time call with its server; nothing is executed here"""
+def rand_spec(rng, by_time, base="?", token=None, site=None, multipage=False):
+    """one get_sessions / get_sessions_by_time call with its server; nothing is executed here.
+    site given: the result set is addressed under 'sessions/<site>' (every next href carries it), so that several
+    generators of one client can be served side by side"""
     import pytz
     timeseries = rng.random() < 0.3
     payloads, metas = rand_pages(rng, timeseries)
+    while multipage and (len(payloads) < 2 or sum(len(p["_items"]) for p in payloads) < 2):
+        payloads, metas = rand_pages(rng, timeseries)
     if base == "?":
         base = rng.choice(BASES)
     if token is None:
         token = rng.choice(["tok", "DEMO_TOKEN", ""])
-    site = rng.choice(SITES) if rng.random() < 0.85 else rng.choice(BAD_SITES)
+    if site is None:
+        site = rng.choice(SITES) if rng.random() < 0.85 else rng.choice(BAD_SITES)
+    else:
+        for i, p_ in enumerate(payloads):
+            if "next" in p_["_links"]:
+                p_["_links"]["next"]["href"] = "sessions/%s%s?page=%d&max_results=%d" % (
+                    site, "/ts/" if timeseries else "", i + 2, 1 if timeseries else 100)
     ts_arg = timeseries if rng.random() < 0.8 else (1 if timeseries else 0)      # truthy ints are legal flags
     spec = dict(by_time=by_time, base=base, token=token, site=site, timeseries=timeseries, payloads=payloads, metas=metas,
                 take=None, scribble=rng.random() < 0.25)
@@ -604,13 +617,40 @@ def build_interleaved_cases(rng):
     return out
 
 
+def build_same_client_cases(rng):
+    """2-3 generators obtained from ONE client object (different sites, multi-page result sets) advanced alternately,
+    together with a generator of another client; each generator is compared with the model on its own"""
+    out = []
+    with installed_transport() as t:
+        base = rng.choice(BASES[1:4])
+        client = make_client(base, "tok-shared")
+        runs = []
+        for site in rng.sample(SITES, rng.choice([2, 2, 3])):
+            spec = rand_spec(rng, rng.random() < 0.25, base=base, token="tok-shared", site=site, multipage=True)
+            runs.append((new_run(spec, client), t.route(base, spec["payloads"], marker="sessions/" + site)))
+        if rng.random() < 0.5:
+            spec = rand_spec(rng, False, base="http://other.example/", token="tok-other")
+            runs.append((new_run(spec, make_client(spec["base"], spec["token"])), t.route(spec["base"], spec["payloads"])))
+        zipped = rng.random() < 0.5         # zip(a, b, ...): strictly alternating; else a random interleaving
+        guard = 0
+        while any(not r["done"] for r, _ in runs) and guard < 10000:
+            live = [r for r, _ in runs if not r["done"]]
+            for r in (live if zipped else [rng.choice(live)]):
+                step(r)
+            guard += 1
+        for r, route in runs:
+            out.append(case_of_run(r, route, "same-client"))
+    return out
+
+
 def build_count_case(rng):
     """count_sessions directly and through get_sessions_by_time(count=True)"""
     import pytz
     base, token = rng.choice(BASES), rng.choice(["tok", "DEMO_TOKEN"])
     site = rng.choice(SITES) if rng.random() < 0.8 else rng.choice(BAD_SITES)
     total = rng.choice(["0", "17", "31337", None]) if rng.random() < 0.9 else None
-    by_time = rng.random() < 0.4
+    by_time = rng.random() < 0.5
+    st = en = me = cond = None
     with installed_transport() as t:
         route = t.route(base if base is not None else DEFAULT_BASE, [], total)
         client = make_client(base, token)
@@ -620,9 +660,12 @@ def build_count_case(rng):
                 off = oracle_offset(zone, tt) or 0
                 if not (MIN_T <= tt + off <= MAX_T) or zone not in FIXED_ZONES and zone not in DST_ZONES:
                     zone = "UTC"
-                st = pytz.utc.localize(naive_of(tt)).astimezone(pytz.timezone(zone)) if rng.random() < 0.8 else None
-                me = rng.choice([None, 0, 2.5])
-                res = ("ok", client.get_sessions_by_time(site, start=st, end=None, min_energy=me, count=True))
+                mk = lambda sh: pytz.utc.localize(naive_of(min(max(tt + sh, MIN_T + 86400), MAX_T - 86400))).astimezone(
+                    pytz.timezone(zone))
+                st = mk(0) if rng.random() < 0.6 else None
+                en = mk(rng.randint(0, 10 ** 6)) if rng.random() < 0.6 else None
+                me = rng.choice([None, 0, 0.0, 2.5])
+                res = ("ok", client.get_sessions_by_time(site, start=st, end=en, min_energy=me, count=True))
             else:
                 cond = rng.choice(CONDS)
                 res = ("ok", client.count_sessions(site, cond) if cond is not None or rng.random() < 0.5 else client.count_sessions(site))
@@ -634,10 +677,12 @@ def build_count_case(rng):
     exp = "(%s, %s)" % (coq_list([coq_str(u) for u in urls]),
                         "(Ok %s)" % coq_str(res[1]) if res[0] == "ok" and isinstance(res[1], str) else '(Err "%s")' % res[1])
     if by_time:
-        coq = "(CCountByTime %s %s %s None %s %s %s)" % (base_c, coq_str(site), coq_opt(st, dt_aware_coq),
-                                                      coq_opt(None if me is None else "{0}".format(me), coq_str),
-                                                      coq_opt(total, coq_str), exp)
-        inp = dict(op="count_by_time", base=base, site=site, start=str(st), min_energy=me, total=total, token=token)
+        coq = "(CCountByTime %s %s %s %s %s %s %s)" % (base_c, coq_str(site), coq_opt(st, dt_aware_coq), coq_opt(en, dt_aware_coq),
+                                                    coq_opt(None if me is None else "{0}".format(me), coq_str),
+                                                    coq_opt(total, coq_str), exp)
+        inp = dict(op="count_by_time", base=base, site=site, start=str(st), end=str(en), min_energy=me, total=total, token=token,
+                   start_inst=None if st is None else secs_of(st) - int(st.utcoffset().total_seconds()),
+                   end_inst=None if en is None else secs_of(en) - int(en.utcoffset().total_seconds()))
     else:
         coq = "(CCount %s %s %s %s %s)" % (base_c, coq_str(site), coq_opt(cond, coq_str), coq_opt(total, coq_str), exp)
         inp = dict(op="count_sessions", base=base, site=site, cond=cond, total=total, token=token)
@@ -834,9 +879,11 @@ def gen_cases(rng, n, tier):
             cases.append(build_run_case(rng, True))
         elif r < 0.47:
             cases.extend(build_reuse_cases(rng))
-        elif r < 0.54:
+        elif r < 0.51:
             cases.extend(build_interleaved_cases(rng))
-        elif r < 0.59:
+        elif r < 0.56:
+            cases.extend(build_same_client_cases(rng))
+        elif r < 0.60:
             cases.append(build_count_case(rng))
         elif r < 0.64:
             cases.append(build_parse_dates_case(rng))
@@ -938,6 +985,14 @@ def monitor(case):
                         return "by-time query lacks %r: %r" % (frag, u0)
             if inp["min_energy"] is not None and ("kWhDelivered > {0}".format(inp["min_energy"])) not in u0:
                 return "by-time query lacks the energy filter: %r" % u0
+            parts = []
+            for key, opname in (("start_inst", ">="), ("end_inst", "<=")):
+                if inp.get(key) is not None:
+                    parts.append('connectionTime %s "%s"' % (opname, fmt_rfc1123(inp[key])))
+            if inp["min_energy"] is not None:
+                parts.append("kWhDelivered > {0}".format(inp["min_energy"]))
+            if ("?where=" + " and ".join(parts) + "&sort=") not in u0:
+                return "by-time query %r does not carry exactly the filter %r" % (u0, " and ".join(parts))
             if "sort=connectionTime" not in u0 or ("max_results=%d" % (1 if inp["timeseries"] else 100)) not in u0:
                 return "by-time query lacks sort / max_results: %r" % u0
         if any(list(a or []) != [inp["token"], ""] for a in impl["auths"]):
@@ -1009,6 +1064,15 @@ def monitor(case):
         pre = base + "sessions/" + inp["site"] + "?"
         if not u.startswith(pre) or not u.endswith("limit=1"):
             return "count URL %r is not %r ... limit=1" % (u, pre)
+        if op == "count_by_time":
+            parts = []
+            for key, opname in (("start_inst", ">="), ("end_inst", "<=")):
+                if inp.get(key) is not None:
+                    parts.append('connectionTime %s "%s"' % (opname, fmt_rfc1123(inp[key])))
+            if inp["min_energy"] is not None:
+                parts.append("kWhDelivered > {0}".format(inp["min_energy"]))
+            if u != pre + "where=" + " and ".join(parts) + "&limit=1":
+                return "count URL %r, expected filter %r" % (u, " and ".join(parts))
         if op == "count_sessions" and u != pre + ("where=" + inp["cond"] + "&" if inp["cond"] is not None else "") + "limit=1":
             return "count URL %r does not carry the filter %r" % (u, inp["cond"])
         if impl["heads"][0] != ["HEAD", {"Authorization": "Bearer " + inp["token"]}]:
